@@ -55,3 +55,9 @@ mod tests {
         assert!(!matcher_io.should_skip_current_dir());
     }
 }
+
+// Verification hook: harnesses live outside the repository (see MANIFEST.hooks of the verifier).
+#[cfg(kani)]
+pub(crate) mod verif_kani {
+    include!(concat!(env!("FINDUTILS_VERIF_DIR"), "/harness/m_prune.rs"));
+}
